@@ -62,7 +62,7 @@ func init() {
 	})
 	registerCheck(&checkSpec{
 		id:    "C06",
-		dirs:  []string{"socket", "proto/jsonproto", "proto/httproto"},
+		dirs:  []string{"socket", "proto/jsonproto", "proto/httproto", "."},
 		level: "other",
 		jobs: func(tier string) []job {
 			var js []job
@@ -82,6 +82,13 @@ func init() {
 				js = append(js, J("proto/jsonproto", "VX_C06_JSONUnpackBytes", n, 16))
 			}
 			js = append(js, J("proto/httproto", "VX_C06_HTTPContentLength", 7, 65536), J("proto/httproto", "VX_C06_HTTPBytes", 0, 4), J("proto/httproto", "VX_C06_HTTPBytes", 1, 4))
+			// the real session read loop around the raw parser
+			for _, n := range []int{0, 1, 4, 5} {
+				js = append(js, J(".", "VX_C06_SessionBytes", n, n%2))
+			}
+			if tier == "thorough" {
+				js = append(js, J(".", "VX_C06_SessionBytes", 6, 1), J(".", "VX_C06_SessionBytes", 7, 0), J(".", "VX_C06_SessionBytes", 8, 1))
+			}
 			if tier == "thorough" {
 				js = append(js, J("proto/httproto", "VX_C06_HTTPContentLength", 8, 1024), J("proto/httproto", "VX_C06_HTTPBytes", 0, 6), J("proto/httproto", "VX_C06_HTTPBytes", 1, 5))
 			}
@@ -93,30 +100,35 @@ func init() {
 	})
 	registerCheck(&checkSpec{
 		id:    "C12",
-		dirs:  []string{"socket", "."},
+		dirs:  []string{"socket", ".", "xfer/md5"},
 		level: "other",
 		jobs: func(tier string) []job {
 			js := []job{J("socket", "VX_C12_PipeInverts", 0, 2), J("socket", "VX_C12_PipeInverts", 1, 2), J("socket", "VX_C12_PipeInverts", 2, 2),
 				J("socket", "VX_C12_PipeOnWire", 1, 1), J("socket", "VX_C12_PipeOnWire", 2, 1), J("socket", "VX_C12_Unregistered"), J("socket", "VX_C12_TooLong"),
 				// a reply (also an error reply) goes through the caller's pipe: [C12]-tagged assertion of the frame harness
 				J(".", "VX_C03_Frame", 1, 0, 0, 0, 0, 0, 1, 1), J(".", "VX_C03_Frame", 1, 1, 0, 0, 0, 0, 1, 1), J(".", "VX_C03_Frame", 1, 2, 0, 0, 0, 0, 0, 1), J(".", "VX_C03_Frame", 1, 0, 0, 1, 0, 0, 1, 1), J(".", "VX_C03_Frame", 1, 0, 0, 2, 0, 0, 1, 1), J(".", "VX_C03_Frame", 1, 0, 0, 0, 2, 0, 1, 1)}
+			for _, a := range [][]int{{2, 0}, {2, 1}, {1, 2}, {2, 3}, {0, 2}, {0, 0}} {
+				js = append(js, J("xfer/md5", "VX_C12_MD5", a...))
+			}
 			if tier == "thorough" {
+				js = append(js, J("xfer/md5", "VX_C12_MD5", 4, 1), J("xfer/md5", "VX_C12_MD5", 4, 3))
 				js = append(js, J("socket", "VX_C12_PipeInverts", 3, 4), J("socket", "VX_C12_PipeInverts", 4, 1), J("socket", "VX_C12_PipeOnWire", 3, 2))
 			}
 			return js
 		},
-		assumptions: append(append([]string{}, stdAssumptions...), "filters are three harness-defined invertible, mutually non-commuting filters; the shipped gzip/md5 filters wrap library code (compress/gzip, crypto/md5) outside reach"),
+		assumptions: append(append([]string{}, stdAssumptions...), "filters are three harness-defined invertible, mutually non-commuting filters plus the shipped md5 integrity filter with crypto/md5 as an uninterpreted collision-free function (equal digests imply equal inputs; both content and checksum altered consistently is outside the claim); gzip internals outside reach"),
 		explanation: "the real xfer.XferPipe (Append/IDs/OnPack/OnUnpack/check) and the raw protocol's pipe transport are executed symbolically; pipe = solver-chosen sequence of filter ids, payload symbolic",
 		bounds:      "pipes of length <= 2 (quick) / 4 (thorough) over 3 filters with repeats, payload <= 4 bytes, 255/256 boundary concrete",
 	})
 	registerCheck(&checkSpec{
 		id:    "C20",
-		dirs:  []string{"socket"},
+		dirs:  []string{"socket", "."},
 		level: "other",
 		jobs: func(tier string) []job {
 			js := []job{
 				J("socket", "VX_C20_Message", 1, 1, 0, 1), J("socket", "VX_C20_Message", 1, 1, 1, 1), J("socket", "VX_C20_Message", 1, 1, 2, 0), J("socket", "VX_C20_Message", 1, 1, 3, 1),
 				J("socket", "VX_C20_Args", 1, 1, 1), J("socket", "VX_C20_Args", 2, 1, 1), J("socket", "VX_C20_XferPipe", 2), J("socket", "VX_C20_ByteBuffer", 2, 1),
+				J(".", "VX_C20_ContextReuse", 0, 1), J(".", "VX_C20_ContextReuse", 1, 1), J(".", "VX_C20_ContextReuse", 2, 0),
 			}
 			if tier == "thorough" {
 				js = append(js, J("socket", "VX_C20_Message", 2, 1, 0, 2), J("socket", "VX_C20_Message", 2, 2, 3, 2), J("socket", "VX_C20_Args", 2, 1, 2), J("socket", "VX_C20_Args", 1, 2, 3))
@@ -125,7 +137,7 @@ func init() {
 		},
 		assumptions: append(append([]string{}, stdAssumptions...), "sync.Pool hands back the most recently released object (the case the property is about); Pool's own behaviour is outside the claim"),
 		explanation: "differential symbolic execution: an object dirtied with symbolic field values is released, re-acquired from the pool and compared field by field and by its packed bytes with a freshly constructed one, before and after a solver-chosen next use",
-		bounds:      "message, utils.Args, xfer.XferPipe, utils.ByteBuffer so far (handler contexts and sockets need the root package harness); dirty strings <= 2 bytes, <= 2 metadata pairs, next-use wire input <= 3 bytes",
+		bounds:      "message, utils.Args, xfer.XferPipe, utils.ByteBuffer, and handler contexts recycled between two requests of one session (first request ok / status / panic); pooled sockets not covered; dirty strings <= 2 bytes, <= 2 metadata pairs, next-use wire input <= 3 bytes",
 	})
 	registerCheck(&checkSpec{
 		id:    "C03",
